@@ -233,6 +233,13 @@ func (cp *CollectingProcess) decodePacket(packetBuffer *bytes.Buffer, exportAddr
 	exportAddress = strings.Replace(exportAddress, "]", "", -1)
 	message.SetExportAddress(exportAddress)
 
+	// The set body is delimited by the set length field, not by the end of the packet: bytes
+	// beyond it (padding, or further sets, which are not supported) must not be decoded as
+	// records of this set.
+	if bodyLen := int(setLen) - entities.SetHeaderLen; bodyLen >= 0 && bodyLen < packetBuffer.Len() {
+		packetBuffer.Truncate(bodyLen)
+	}
+
 	var set entities.Set
 	var err error
 	if setID == entities.TemplateSetID {
